@@ -445,9 +445,11 @@ def c09_exchange(case, rng, kind="sync"):
             if len(rest) > 3 and rest[3] == "Transfer-Encoding: chunked":
                 nserver = 4
             head["server_ok"] = ok
+            accepted2 = called2 and not raised2 and case["exc"] == "given"
+            order = ((2, hs2), (1, hs1)) if accepted2 else ((1, hs1), (2, hs2))
             for x in rest[nserver:]:
                 found = None
-                for who_k, hs in ((2, hs2), (1, hs1)):
+                for who_k, hs in order:
                     for idx, (n, v) in enumerate(hs or []):
                         try:
                             if x == "%s: %s" % (n, v.strip(" \t")):
